@@ -32,7 +32,7 @@ m = {
     "setup_cmd": "./setup.sh",
     "hooks": {
         "guard": "verif",
-        "enable": "no hook commits in /repo: check.sh generates a go build -overlay from the current tree (tools/overlaygen) that swaps sync, sync/atomic, time, context and fsnotify imports of a few packages for shims under the virtual package <module>/verifx/..., instruments plain field/map accesses of pkg/authentication/basic, validator.go, pkg/header and pkg/middleware/headers.go (narrow build) or of every package of the repository incl. package-level and closure-captured variables and statement-level scheduling points (wide build, used for C01-C10, C16, C18, falling back to the narrow build and then to import swaps only if the instrumented tree does not compile), generates accessors for the few unexported members the harness needs from the current source, and injects harness/*_test.go (build tag verif) into package main; built with `go test -c -tags verif -overlay`",
+        "enable": "no hook commits in /repo: check.sh generates a go build -overlay from the current tree (tools/overlaygen) that swaps sync, sync/atomic, time, context and fsnotify imports of a few packages for shims under the virtual package <module>/verifx/..., rewrites `go` statements into vrt.Go (the goroutine becomes a scheduler thread) and puts vrt.Sel before blocking selects/receives, instruments plain field/map accesses of pkg/authentication/basic, validator.go, pkg/header and pkg/middleware/headers.go (narrow build) or of every package of the repository incl. package-level and closure-captured variables and statement-level scheduling points (wide build, used for C01-C10, C16, C18, falling back to the narrow build and then to import swaps only if the instrumented tree does not compile), generates accessors for the few unexported members the harness needs from the current source, and injects harness/*_test.go (build tag verif) into package main; built with `go test -c -tags verif -overlay`",
         "baseline_off_cmd": "cd /repo && GOFLAGS=-mod=mod GOPROXY=off go test -vet=off -count=1 ./...",
         "source_commits": [],
         "add_only": True,
